@@ -24,6 +24,7 @@ import (
 	"os"
 	"path"
 	"path/filepath"
+	"sort"
 	"strings"
 
 	"github.com/pkg/errors"
@@ -135,17 +136,23 @@ func (cfg *Configuration) renderResources(ch *chart.Chart, values chartutil.Valu
 	// look for terminating NOTES.txt. We also remove it from the files so that we don't have to skip
 	// it in the sortHooks.
 	var notesBuffer bytes.Buffer
-	for k, v := range files {
+	// Walk the NOTES.txt files in a fixed (sorted) order: the text must not depend on map iteration order.
+	var notesKeys []string
+	for k := range files {
 		if strings.HasSuffix(k, notesFileSuffix) {
-			if subNotes || (k == path.Join(ch.Name(), "templates", notesFileSuffix)) {
-				// If buffer contains data, add newline before adding more
-				if notesBuffer.Len() > 0 {
-					notesBuffer.WriteString("\n")
-				}
-				notesBuffer.WriteString(v)
-			}
-			delete(files, k)
+			notesKeys = append(notesKeys, k)
 		}
+	}
+	sort.Strings(notesKeys)
+	for _, k := range notesKeys {
+		if subNotes || (k == path.Join(ch.Name(), "templates", notesFileSuffix)) {
+			// If buffer contains data, add newline before adding more
+			if notesBuffer.Len() > 0 {
+				notesBuffer.WriteString("\n")
+			}
+			notesBuffer.WriteString(files[k])
+		}
+		delete(files, k)
 	}
 	notes := notesBuffer.String()
 
